@@ -1383,11 +1383,8 @@ func pipeTracersIn(d *pipeDir, acc map[string]int) {
 func pipeOracles(pc *pipeCase, o pipeOutcome) [][3]string {
 	var out [][3]string
 	if o.Cls == ClsPanic {
-		// known C12 finding (class panic:api/resmap.(*Factory).FromResourceSlice:explicit-may-not-add): an id collision
-		// among the resources IgnoreLocal keeps panics; the model reproduces it (corpus/PIPE/case_hashclash.json)
-		if strings.Contains(o.Msg, "may not add resource with an already registered id") {
-			return nil
-		}
+		// no exemption: the id collision among the resources IgnoreLocal keeps (former C12 finding, class
+		// panic:api/resmap.(*Factory).FromResourceSlice:explicit-may-not-add) is an error since /repo 9a490e0 + 66fde0c
 		return append(out, [3]string{"no_panic", "PIPE/panic", o.Msg})
 	}
 	if o.Cls != ClsOk {
